@@ -284,6 +284,28 @@ def responseRequest : Response → Option Req
   | .info => some .getInfo
   | .none => Option.none
 
+/-- the name the translator gives a `HandleEventResponse` / `CancelEvent` arm of `run` (Gen.responseBroadcasts) -/
+def respName : Response → String
+  | .none => "None"
+  | .cancelReport => "Cancel/Report"
+  | .cancelTestFailure => "Cancel/TestFailure"
+  | .cancelSignal _ => "Cancel/Signal"
+  | .jobStop => "JobControl/Stop"
+  | .jobContinue => "JobControl/Continue"
+  | .info => "Info"
+
+/-- … and a `RunUnitRequest` (the shutdown request carries the arm's own `req`) -/
+def reqName : Req → String
+  | .otherCancel => "otherCancel"
+  | .shutdown _ => "shutdown"
+  | .stop => "stop"
+  | .continue => "continue"
+  | .getInfo => "getInfo"
+
+/-- what the model's run loop broadcasts for a response, in the translator's form: each request with "unconditionally" -/
+def responseRow (r : Response) : String × List (String × Bool) :=
+  (respName r, (responseRequest r).toList.map fun q => (reqName q, true))
+
 /-- finish a step: perform the broadcast for the response -/
 def finishStep (s : DState) (resp : Response) (reply : Reply) (em : List Emitted) : DState × Out :=
   match responseRequest resp with
